@@ -892,4 +892,147 @@ theorem lower_keeps_all_F (f : Func) (hsp : f.hasSpecial = true) (hp : ∀ x ∈
   rw [lower_eq_specF f hsp hp out nlf hs]
   exact (specRunF_keeps (f.body.length - 1) (entryToks f) f.exit f.body 0 [{}] f.nlocals out nlf hs hna (by omega) (.inl (by simp))).2.2
 
+/-! ### the machine is total on well-nested bodies -/
+
+/-- well-nestedness of a flat body, counted on the number of open frames (the function body's own frame included): every `else` sits in
+    a construct, every `end` closes something, the function body's frame is closed by the last instruction and by no earlier one -/
+def okNest : Nat → List Instr → Bool
+  | n, [] => n == 0
+  | n, i :: is =>
+    match i.kind with
+    | .block | .loop | .if_ => okNest (n + 1) is
+    | .else_ => decide (2 ≤ n) && okNest n is
+    | .end_ => decide (1 ≤ n) && (decide (2 ≤ n) || is.isEmpty) && okNest (n - 1) is
+    | _ => (decide (1 ≤ n) || (is.isEmpty && !flaggedBranch i)) && okNest n is
+
+theorem specStepA_some (fr : List Fr) (del : Option Del) (i : Instr)
+    (h : match i.kind with | .else_ => 2 ≤ fr.length | .end_ => 1 ≤ fr.length | _ => True) :
+    ∃ fr' del' b alt a, specStepA fr del i = some (fr', del', b, alt, a)
+      ∧ fr'.length = (match i.kind with | .block | .loop | .if_ => fr.length + 1 | .end_ => fr.length - 1 | _ => fr.length) := by
+  cases hk : i.kind with
+  | block | loop | if_ =>
+    all_goals
+      cases del with
+      | some d => (simp only [specStepA, hk]; exact ⟨_, _, _, _, _, rfl, by simp⟩)
+      | none =>
+        cases hb : i.blockAlt with
+        | some a => (simp only [specStepA, hk, hb]; exact ⟨_, _, _, _, _, rfl, by simp⟩)
+        | none => (simp only [specStepA, hk, hb]; exact ⟨_, _, _, _, _, rfl, by simp⟩)
+  | else_ =>
+    simp only [hk] at h
+    match fr, h with
+    | top :: below :: rest, _ =>
+      cases del with
+      | some d => (simp only [specStepA, hk]; exact ⟨_, _, _, _, _, rfl, by simp⟩)
+      | none =>
+        cases hb : i.blockAlt with
+        | some a => (simp only [specStepA, hk, hb]; exact ⟨_, _, _, _, _, rfl, by simp⟩)
+        | none => (simp only [specStepA, hk, hb]; exact ⟨_, _, _, _, _, rfl, by simp⟩)
+  | end_ =>
+    simp only [hk] at h
+    match fr, h with
+    | top :: rest, _ =>
+      cases del with
+      | none => (simp only [specStepA, hk]; exact ⟨_, _, _, _, _, rfl, by simp⟩)
+      | some dl =>
+        obtain ⟨d, r⟩ := dl
+        by_cases hd : d = rest.length
+        · cases r with
+          | true => (simp only [specStepA, hk, hd, if_true]; exact ⟨_, _, _, _, _, rfl, by simp⟩)
+          | false => (simp only [specStepA, hk, hd, if_true, Bool.false_eq_true, if_false]; exact ⟨_, _, _, _, _, rfl, by simp⟩)
+        · (simp only [specStepA, hk, hd, if_false]; exact ⟨_, _, _, _, _, rfl, by simp⟩)
+  | br _ | brIf _ | brTable _ _ | exitLike | other =>
+    all_goals
+      cases del with
+      | some d => (simp only [specStepA, hk]; exact ⟨_, _, _, _, _, rfl, by simp⟩)
+      | none => (simp only [specStepA, hk]; exact ⟨_, _, _, _, _, rfl, by simp⟩)
+
+/-- **the complete machine accepts every well-nested body** — with any plan, in any removal state: the hypothesis `specRunF … = some _`
+    of the refinement theorems is exactly well-nestedness -/
+theorem specRunF_total (last : Nat) (E X : List Tok) : ∀ (xs : List Instr) (idx : Nat) (fr : List Fr) (del : Option Del) (nl : Nat),
+    okNest fr.length xs = true → ∃ r, specRunF last E X idx fr del nl xs = some r := by
+  intro xs
+  induction xs with
+  | nil =>
+    intro idx fr del nl h
+    simp only [okNest, beq_iff_eq] at h
+    have : fr = [] := List.length_eq_zero_iff.mp h
+    subst this
+    exact ⟨_, rfl⟩
+  | cons x xs ih =>
+    intro idx fr del nl h
+    -- one step
+    have hstep : ∃ fr' del' nl' b alt a, specStepF fr del nl x = some (fr', del', nl', b, alt, a)
+        ∧ okNest fr'.length xs = true ∧ (fr'.isEmpty && !xs.isEmpty) = false := by
+      cases hf : flaggedBranch x with
+      | true =>
+        have hbr : x.kind.isBranching = true := by simp only [flaggedBranch, Bool.and_eq_true] at hf; exact hf.1
+        have hk : okNest fr.length (x :: xs) = ((decide (1 ≤ fr.length) || (xs.isEmpty && !flaggedBranch x)) && okNest fr.length xs) := by
+          cases hkk : x.kind <;> simp_all [okNest, Kind.isBranching]
+        rw [hk, hf] at h
+        simp only [Bool.not_true, Bool.and_false, Bool.or_false, Bool.and_eq_true, decide_eq_true_eq] at h
+        have hfe : fr.isEmpty = false := by cases fr with | nil => simp at h | cons _ _ => rfl
+        cases del with
+        | some d =>
+          refine ⟨fr, some d, nl, [], some [], [], by simp [specStepF, hf], h.2, by simp [hfe]⟩
+        | none =>
+          have hlen := (parkAllF_spec (fr.length - 1) (x.semAfter, nl) (branchTargets x.kind) fr (by omega)).1
+          refine ⟨parkAllF fr (fr.length - 1) (x.semAfter, nl) (branchTargets x.kind), none, nl + 1, [tConst 1, tLocalSet nl], x.alt,
+            [tConst 0, tLocalSet nl] ++ (match x.kind with | .brIf _ => x.semAfter | _ => []), ?_, by rw [hlen]; exact h.2, ?_⟩
+          · simp only [specStepF, hf, hfe, if_true, Bool.false_eq_true, if_false]
+            all_goals (cases x.kind <;> rfl)
+          · have : (parkAllF fr (fr.length - 1) (x.semAfter, nl) (branchTargets x.kind)).isEmpty = false := by
+              cases hp : parkAllF fr (fr.length - 1) (x.semAfter, nl) (branchTargets x.kind) with
+              | nil => rw [hp] at hlen; simp at hlen; omega
+              | cons _ _ => rfl
+            simp [this]
+      | false =>
+        have hreq : (match x.kind with | .else_ => 2 ≤ fr.length | .end_ => 1 ≤ fr.length | _ => True) := by
+          cases hkk : x.kind <;> simp_all [okNest]
+        obtain ⟨fr', del', b, alt, a, hs, hlen⟩ := specStepA_some fr del x hreq
+        have hnf : ¬ (flaggedBranch x = true) := by rw [hf]; simp
+        have hfacts : okNest fr'.length xs = true ∧ (1 ≤ fr'.length ∨ xs.isEmpty = true) := by
+          cases hkk : x.kind with
+          | block | loop | if_ =>
+            all_goals
+              simp only [okNest, hkk] at h
+              simp only [hkk] at hlen
+              rw [hlen]; exact ⟨h, .inl (by omega)⟩
+          | else_ =>
+            simp only [okNest, hkk, Bool.and_eq_true, decide_eq_true_eq] at h
+            simp only [hkk] at hlen
+            rw [hlen]; exact ⟨h.2, .inl (by omega)⟩
+          | end_ =>
+            simp only [okNest, hkk, Bool.and_eq_true, Bool.or_eq_true, decide_eq_true_eq] at h
+            simp only [hkk] at hlen
+            rw [hlen]
+            refine ⟨h.2, ?_⟩
+            rcases h.1.2 with h2 | h2
+            · exact .inl (by omega)
+            · exact .inr h2
+          | br _ | brIf _ | brTable _ _ | exitLike | other =>
+            all_goals
+              simp only [okNest, hkk, hf, Bool.not_false, Bool.and_true, Bool.and_eq_true, Bool.or_eq_true, decide_eq_true_eq] at h
+              simp only [hkk] at hlen
+              rw [hlen]
+              exact ⟨h.2, h.1⟩
+        refine ⟨fr', del', nl, b, alt, a, by simp [specStepF, hf, hs], hfacts.1, ?_⟩
+        rcases hfacts.2 with h1 | h1
+        · have : fr'.isEmpty = false := by cases fr' with | nil => simp at h1 | cons _ _ => rfl
+          simp [this]
+        · simp [h1]
+    obtain ⟨fr', del', nl', b, alt, a, hs, hok, hg⟩ := hstep
+    obtain ⟨r, hr⟩ := ih (idx + 1) fr' del' nl' hok
+    obtain ⟨o, n⟩ := r
+    refine ⟨(x.before ++ fnPre last E X idx x ++ b ++ (if idx ≥ last then [x.tok] else alt.getD [x.tok])
+      ++ (if idx ≥ last then [] else x.after ++ a) ++ o, n), ?_⟩
+    simp only [specRunF, hs, hg, Bool.false_eq_true, if_false, hr]
+
+/-- **for every well-nested body and every plan in scope the encoded function is the machine's output** — no side condition left -/
+theorem lower_is_machine (f : Func) (hsp : f.hasSpecial = true) (hp : ∀ x ∈ f.body, PlainF x) (hn : okNest 1 f.body = true) :
+    ∃ out nlf, specRunF (f.body.length - 1) (entryToks f) f.exit 0 [{}] none f.nlocals f.body = some (out, nlf)
+      ∧ lower f = (out, f.added + (nlf - f.nlocals)) := by
+  obtain ⟨⟨out, nlf⟩, hr⟩ := specRunF_total (f.body.length - 1) (entryToks f) f.exit f.body 0 [{}] none f.nlocals hn
+  exact ⟨out, nlf, hr, lower_eq_specF f hsp hp out nlf hr⟩
+
 end Orca.Lower
